@@ -17,7 +17,7 @@ BATCH = 16
 
 RULE = ("Python methods: prologue x = c; y = c, a control shape (if / if-else, while, while-else, for-in, break, continue, return; "
         "up to 8 nodes, depth 3, sampled by Hypothesis, plus all shapes with <= 3 nodes under a fixed payload rotation) whose simple "
-        "statements are definitions v = <distinct constant> or uses t<k> = v, epilogue t = x; t = y; each method is its own entry "
+        "statements are definitions v = <distinct constant>, uses t<k> = v or updates v = v + <constant> (x is a local, y a parameter), epilogue t = x; t = y; each method is its own entry "
         "point. For every use u of v: (1) soundness - on every walker path with each loop body run 0 or 1 times the last definition "
         "of v before u is in the analysis' set; (2) no dead definitions - every definition in the set has a path to u in lian's own "
         "CFG that passes no other definition of v; (3) on loop-free methods the set equals the classical reaching-definitions "
@@ -33,15 +33,22 @@ ASSUMPTIONS = [
 
 
 def build_method(shape):
-    pro = (("s", "def", "x"), ("s", "def", "y"))
+    # x is a local initialised by the prologue; y is a parameter (its first definition is the parameter_decl)
+    pro = (("s", "def", "x"),)
     epi = (("s", "use", "x"), ("s", "use", "y"))
     # an epilogue after a trailing unconditional jump would be dead code, but it is harmless
     return pro + shape + epi
 
 
+def render(blocks):
+    # every method takes its parameters (so that y is one): shift the parameterless slots away
+    src = gen_ctl.render_methods(LANG, blocks, extra_params=", y")
+    return src.replace("():", "(c0, c1, c2, n, lst, y):")
+
+
 def analyse_batch(shapes, col, label):
     blocks = [build_method(s) for s in shapes]
-    src = gen_ctl.render_methods(LANG, blocks)
+    src = render(blocks)
     try:
         compile(src, "a.py", "exec")
     except SyntaxError as e:
@@ -144,9 +151,12 @@ def check_method(prog, row, cfg, reach, shape, col, case_fn):
     own = walker.own_statement_ids(prog, row)
     for sid in own:
         r = prog.by_id[sid]
-        if r["operation"] == "assign_stmt" and r.get("target") in VARS and girsem.isnull(r.get("operator")):
+        if r["operation"] == "assign_stmt" and r.get("target") in VARS:
             defs.setdefault(r["target"], set()).add(sid)
-        if r["operation"] == "assign_stmt" and str(r.get("target")).startswith("t") and r.get("operand") in VARS and girsem.isnull(r.get("operator")):
+        if r["operation"] == "parameter_decl" and r.get("name") in VARS:
+            defs.setdefault(r["name"], set()).add(sid)
+        if r["operation"] == "assign_stmt" and r.get("operand") in VARS:
+            # a copy t<k> = v, or an update v = v + <const> (use and definition of v in one statement)
             uses[sid] = r["operand"]
     w = walker.Walker(prog, LANG, max_iter=1)
     try:
@@ -187,14 +197,22 @@ def check_method(prog, row, cfg, reach, shape, col, case_fn):
             r = prog.by_id.get(sid)
             if r is not None and r["operation"] == "assign_stmt" and r.get("target") in VARS:
                 last[r["target"]] = (sid, pos)
+            if r is not None and r["operation"] == "parameter_decl" and r.get("name") in VARS:
+                last[r["name"]] = (sid, pos)
     loops = bool(gen_ctl.constructs_of(shape) & {"wh", "fi", "fc", "dw"})
+    n_loops = sum(1 for sid in own if prog.by_id[sid]["operation"] in loop_ops)
+    branching = ("if_stmt", "switch_stmt", "try_stmt", "break_stmt", "continue_stmt", "return_stmt")
+    in_loop_branching = any(prog.by_id[sid]["operation"] in branching and any(op in loop_ops for _, op, _ in ancestors(prog, sid)) for sid in own)
+    # the open finding (visit limit used up by header / post-loop statements) needs a cycle besides the plain back edge:
+    # a second loop, or a branch / jump inside the loop body
+    loop_class = "single-straight-loop" if (n_loops <= 1 and not in_loop_branching) else "loops-with-inner-branching-or-several"
     nontrivial = False
     for (u, v), ds in sorted(required.items()):
         got = reach.get((u, v), set())
         if len(defs.get(v, ())) >= 2 and multi.get((u, v), 0) >= 2:
             nontrivial = True
         for d in sorted(ds - got):
-            col.discrepancy((ID, LANG, "unsound") + witness[(u, v, d)][1],
+            col.discrepancy((ID, LANG, "unsound") + witness[(u, v, d)][1] + (loop_class,),
                             "definition %d of %s reaches use %d on an execution (loops run <= once) but is not in the analysis' set %s" % (d, v, u, sorted(got)),
                             case_fn())
         col.extra["soundness_obligations"] += len(ds)
@@ -203,9 +221,10 @@ def check_method(prog, row, cfg, reach, shape, col, case_fn):
     succ = {}
     for e in cfg.edges():
         succ.setdefault(int(e[0]), set()).add(int(e[1]))
+    reachable = {sid for trace, _ in paths for sid, _ in trace}
     for (u, v), got in sorted(reach.items()):
-        if v not in VARS or u not in uses:
-            continue
+        if v not in VARS or u not in uses or u not in reachable:
+            continue        # (statements after an if whose arms all jump are dead code: nothing is claimed about them)
         others = defs.get(v, set())
         live = set()
         for d in others:
@@ -243,7 +262,7 @@ def check_method(prog, row, cfg, reach, shape, col, case_fn):
     for c in gen_ctl.constructs_of(shape):
         col.labels["construct:" + c] += 1
     if len(col.samples) < 2 and nontrivial:
-        col.sample({"source": gen_ctl.render_methods(LANG, [build_method(shape)]), "uses": len(uses), "paths": len(paths)})
+        col.sample({"source": render([build_method(shape)]), "uses": len(uses), "paths": len(paths)})
 
 
 def kinds():
@@ -255,7 +274,7 @@ def sample_shard(arg):
     import hypothesis
     from hypothesis import settings, HealthCheck, strategies as st
     col = Collector()
-    payload = st.tuples(st.sampled_from(["def", "def", "use"]), st.sampled_from(VARS))
+    payload = st.tuples(st.sampled_from(["def", "def", "use", "use", "upd"]), st.sampled_from(VARS))
 
     @st.composite
     def method(draw):
@@ -276,7 +295,7 @@ def sample_shard(arg):
 def enum_shard(arg):
     shard, nshards, max_nodes = arg
     col = Collector()
-    rot = [("def", "x"), ("use", "x"), ("def", "y"), ("def", "x"), ("use", "y"), ("def", "y"), ("use", "x")]
+    rot = [("def", "x"), ("use", "x"), ("def", "y"), ("upd", "x"), ("use", "y"), ("def", "y"), ("use", "x"), ("upd", "y")]
     batch = []
     for idx, b in enumerate(gen_ctl.all_shapes(max_nodes, 3, kinds())):
         if idx % nshards != shard:
